@@ -213,6 +213,24 @@ def extract_fn_range(path, scopes, fn_name, start_marker, end_marker):
     return lines[h1[0]:h2[0]], h1[0] + 1, h2[0]
 
 
+def extract_fn_body(path, scopes, fn_name):
+    """Lines strictly between the line that ends the signature of fn `fn_name` (the first line at or after `fn` whose code
+    ends with `{`) and the fn's closing brace.  Returns (lines, first_line_no, last_line_no)."""
+    with open(path) as f:
+        lines = f.read().split("\n")
+    s, e = 0, len(lines) - 1
+    for sc in scopes:
+        s, e = find_scope(lines, sc, s, e + 1)
+    i = find_fn(lines, fn_name, s, e)
+    a, b = fn_extent(lines, i)
+    k = a
+    while k <= b and not _strip_strings_and_comments(lines[k]).rstrip().endswith("{"):
+        k += 1
+    if k >= b:
+        raise LostAnchor("fn %s: no body" % fn_name)
+    return lines[k + 1:b], k + 2, b
+
+
 def extract_fn_tail(path, scopes, fn_name, start_marker):
     """Lines of fn `fn_name` (inside `scopes`) from the line containing start_marker up to (not including) the fn's closing
     brace.  Returns (lines, first_line_no, last_line_no)."""
